@@ -96,14 +96,44 @@ func (h *History) Write(s string) (int, error) {
 		return h.Len(), err
 	}
 
+	b = append(b, '\n')
+
+	// A previous write may have been cut short (crash, power loss, full disk).
+	// Never continue such a partial line: the new entry would be glued to it
+	// and both would be unreadable. Start a new line instead.
+	if !endsWithNewline(h.filename) {
+		b = append([]byte{'\n'}, b...)
+	}
+
 	f, err := os.OpenFile(h.filename, os.O_APPEND|os.O_CREATE|os.O_WRONLY, 0600)
 	if err != nil {
 		return 0, err
 	}
 
-	_, err = f.Write(append(b, '\n'))
+	_, err = f.Write(b)
 	f.Close()
 	return h.Len(), err
+}
+
+// endsWithNewline reports whether the file is empty, missing, unreadable or
+// ends with a newline, ie whether an entry can be appended as it is.
+func endsWithNewline(filename string) bool {
+	f, err := os.Open(filename)
+	if err != nil {
+		return true
+	}
+	defer f.Close()
+
+	info, err := f.Stat()
+	if err != nil || info.Size() == 0 {
+		return true
+	}
+
+	last := make([]byte, 1)
+	if _, err = f.ReadAt(last, info.Size()-1); err != nil {
+		return true
+	}
+	return last[0] == '\n'
 }
 
 // GetLine returns a specific line from the history file
